@@ -1,12 +1,13 @@
-\* implementation-shaped variant: the getter with units drops `rev` (pinned ChemkinReaction.get_H_act). EXPECTED TO BE REJECTED: ClampRefines
+\* implementation-shaped variant (seeded change C09-9): the rev_delta flag is cached at construction.
+\* EXPECTED TO BE REJECTED: EditedEqualsFresh
 SPECIFICATION Spec
 CONSTANTS
-  Vals <- MCVals
+  Vals <- MCValsSmall
   Slopes2 <- MCSlopes2
   Icpts <- MCIcpts
-  Variant = "droprev"
-  Kinds = {"plain"}
-  MaxEdits = 0
+  Variant = "cachedflag"
+  Kinds = {"bep"}
+  MaxEdits = 2
 INVARIANT TypeOK
 INVARIANT ClampRefines
 INVARIANT NotBelowMinimum
